@@ -1,0 +1,30 @@
+//go:build verif
+
+// Machine-checked contracts for package thrift (read by /verif/govc; comments only).
+
+package thrift
+
+// readHeaders: nh:2 (k~2 v~2){nh}. Total on arbitrary bytes (no panic); zero
+// headers decode to a nil map; every decoded pair is stored under exactly its
+// key with exactly its value (step clause: one fact per iteration).
+//@ func readHeaders(reader *typed.Reader) (m map[string]string, err error)
+//@   requires reader.reader != nil
+//@   modifies all
+//@   label each-pair-recorded
+//@   loop 0 step has(headers, k) && headers[k] == v
+//@   loop 0 invariant headers != nil && reader.reader != nil
+//@   ensures err == reader.err
+//@   property C18
+
+//@ func ReadHeaders(r io.Reader) (m map[string]string, err error)
+//@   requires r != nil
+//@   modifies all
+//@   property C18
+
+// WriteHeaders: count prefix first, then one length-prefixed record per entry.
+//@ func WriteHeaders(w io.Writer, headers map[string]string) (err error)
+//@   requires w != nil
+//@   modifies all
+//@   loop 0 invariant size >= 2
+//@   loop 1 invariant writeBuffer != nil
+//@   property C18
